@@ -196,8 +196,15 @@ func zzHsVerifyKeySignature(message, sig []byte, h dtlshash.Algorithm, s signatu
 	return nil
 }
 
+// zzHsBuiltPath is what X.509 path building returns: a chain that is NOT the presented list (the trust anchor from
+// the pool is appended, certificates the path did not need are gone). The endpoint's view of the peer chain must
+// stay the presented one.
+func zzHsBuiltPath() [][]*x509.Certificate {
+	return [][]*x509.Certificate{{{Raw: []byte{0xee, 0x01}}, {Raw: []byte{0xee, 0x02}}}}
+}
+
 func zzHsVerifyServerCert(rawCertificates [][]byte, roots *x509.CertPool, serverName string, algs []signaturehash.Algorithm) ([][]*x509.Certificate, error) {
-	return nil, nil
+	return zzHsBuiltPath(), nil
 }
 
 func zzHsVerifyCertificateVerify(bodies []byte, h dtlshash.Algorithm, s signature.Algorithm, sig []byte, rawCertificates [][]byte) error {
@@ -206,7 +213,7 @@ func zzHsVerifyCertificateVerify(bodies []byte, h dtlshash.Algorithm, s signatur
 }
 
 func zzHsVerifyClientCert(rawCertificates [][]byte, roots *x509.CertPool, algs []signaturehash.Algorithm) ([][]*x509.Certificate, error) {
-	return nil, nil
+	return zzHsBuiltPath(), nil
 }
 
 func zzHsNewGCM(localKey, localWriteIV, remoteKey, remoteWriteIV []byte) (*cryptosuite.GCM, error) {
@@ -838,6 +845,11 @@ func zzMasterMirror12() {
 		// the ServerKeyExchange signature the client checked is over client_random || server_random || params, under the presented chain
 		zzsymAssert(len(zzHsKeySigLog) == 1, "mm/client_checked_key_signature")
 		zzsymAssert(len(zzHsKeySigLog[0].certs) == 1 && zzsymEqBytes(zzHsKeySigLog[0].certs[0], w.serverChain[0]), "mm/key_signature_checked_against_presented_chain")
+		// the client's view after chain verification (which built a DIFFERENT path, zzHsBuiltPath) is still the presented list
+		zzsymAssert(len(cs.PeerCertificates) == len(w.serverChain), "mm/client_view_of_server_chain_length_after_verification")
+		for i := range w.serverChain {
+			zzsymAssert(zzsymEqBytes(cs.PeerCertificates[i], w.serverChain[i]), "mm/client_view_is_the_presented_server_chain_after_verification")
+		}
 		if w.clientAuth > dtlsconfig.NoClientCert {
 			zzsymAssert(len(ss.PeerCertificates) == len(w.clientChain), "mm/server_sees_client_chain_length")
 			for i := range w.clientChain {
